@@ -18,7 +18,7 @@ CLAIM = {
              "reap_combos_to_ds as through Runner.run_combos (differential over the composed keyword-forwarding chains); (R2) dict-merge precedence explicit > constants > resources is the same when sowing as in a direct run; "
              "(R3) every normal exit of reap_runner records the result as the runner's last Dataset / DataFrame according to to_df; (R4) the farmer is persisted as a copy with its function cleared, re-attached on load, the function file is "
              "rewritten on every sow when save_fn, and the three farmer factories forward all five crop options; (R5) Crop.reap forwards clean_up / wait / allow_incomplete / overwrite / sync unchanged for every value (incl. False) to the farmer-specific reap; "
-             "(R6) the replayed enumeration uses the persisted settings (C04.R1), DataFrame rows pair correctly (C03.R1), harvester files use one physical name (C05.R1). Not decided: equality of the Datasets themselves (xarray semantics)."),
+             "(R6) the replayed enumeration uses the persisted settings (C04.R1), DataFrame rows pair correctly (C03.R1), harvester files use one physical name (C05.R1). (R7 also: the raw constants argument of sow_* is consumed once; R8: an omitted fn_args is resolved from the runner's declared order in sow_cases exactly as in Runner.run_cases; R9: load_info always reads the settings file.) Not decided: equality of the Datasets themselves (xarray semantics)."),
     "note": "Trusted base: as C03 / C04 / C05 for the shared rules; copy.deepcopy of the farmer; sow-time constants are not persisted by design (observation in DESIGN.md section 9).",
     "technique": "static analysis: differential comparison of composed keyword-forwarding chains, dict-merge layer comparison, truthiness-partitioned dataflow of option dictionaries, CFG must-complete-before rules",
 }
@@ -197,9 +197,9 @@ def fn_args_default_rule(ctx, rid):
     prog = ctx.prog
     rc = prog.need_func("xyzpy.gen.farming.Runner.run_cases")
     ctx.touch(rc)
-    src = [norm(st.value) for st in ast.walk(rc.node) if isinstance(st, ast.Assign) and norm(st.targets[0]) == "fn_args"]
-    need(any("self._fn_args" in x or "self.fn_args" in x for x in src), "idiom changed: Runner.run_cases default of fn_args (%s)" % src)
-    rr.ok("Runner.run_cases: fn_args defaults to the runner's declared order (%s)" % src[0])
+    from . import sweep as _sw
+    sub_rr = _sw.case_binding_rule(ctx, rid + "a")
+    rr.ok("Runner.run_cases: fn_args defaults to the runner's declared order (decided by %sa)" % rid)
     sc = prog.need_cls(CROP + ".Crop").methods["sow_cases"]
     g = build_cfg(sc.node)
     ctx.touch(sc, g)
